@@ -508,6 +508,11 @@ def spec_panic_sites(prog, rep=None):
                 if cn.endswith("Option::unwrap_or_else") or cn.endswith("Option::unwrap") or cn.endswith("Option::expect"):
                     site = (nxt, cn)
             if site is None:
+                # `match get_x_tag(..) { Some(t) => t, None => panic!(..) }`: a switch on the result whose None arm diverges
+                pbb = _none_arm_panic(body, t)
+                if pbb is not None:
+                    site = (pbb, "match-None-panics")
+            if site is None:
                 continue
             # evidence: the block is dominated by an edge selecting TagDataType::<want> for the id's type, or by as_master()==Some(..),
             # or the id comes from get_path_by_id (ids on a path are masters: guaranteed by the derive, C18)
@@ -556,6 +561,8 @@ def spec_panic_sites(prog, rep=None):
                         for b2, i, stmt in body.statements():
                             if stmt["k"] == "assign" and stmt["place"]["local"] == a1["place"]["local"] and stmt["rv"].get("agg") == "closure":
                                 allowed.add((strip_generics(stmt["rv"]["def"]), "PANIC"))
+                elif site[1] == "match-None-panics":
+                    allowed.add((body.key, "PANIC@%d" % site[0]))
                 else:
                     allowed.add((body.key, "PRECOND@%d" % site[0]))
     # the `PathPart::Global(_) => unreachable!()` arm of the closure that seeds the implied ancestors: reachable only if the path
@@ -607,6 +614,66 @@ def spec_panic_sites(prog, rep=None):
                             if rep is not None:
                                 rep.instance("%s: %s in a path-mapping closure (ids from get_path_by_id)" % (b.key, nm))
     return allowed
+
+
+def _none_arm_panic(body, call_term):
+    """block of the diverging call reached from the None arm of a switch on this call's Option result (within a few blocks), else None"""
+    dest = call_term["dest"]["local"] if not call_term["dest"]["proj"] else None
+    nxt = call_term["target"]
+    if dest is None or nxt is None:
+        return None
+    # find the switch on discriminant(dest) within the next few blocks
+    cur, hops = nxt, 0
+    none_t = None
+    while cur is not None and hops < 4:
+        blk = body.blocks[cur]
+        t = blk["term"]
+        if t["k"] == "switch":
+            disc_of = None
+            d = t["discr"]
+            if d.get("k") in ("copy", "move") and not d["place"]["proj"]:
+                for st in blk["stmts"]:
+                    if st["k"] == "assign" and st["place"]["local"] == d["place"]["local"] and st["rv"]["k"] == "discr":
+                        disc_of = st["rv"]["place"]["local"]
+            if disc_of is None:
+                return None
+            if disc_of != dest and "local:%d" % dest not in _moved_chain(body, disc_of):
+                return None
+            none_t = next((tg for v, tg in t["targets"] if v == 0), None)
+            break
+        cur = t.get("target") if t["k"] in ("goto", "drop", "call", "assert") else None
+        hops += 1
+    if none_t is None:
+        return None
+    seen, frontier = set(), [none_t]
+    for _ in range(8):
+        nf = []
+        for b in frontier:
+            if b in seen:
+                continue
+            seen.add(b)
+            t = body.blocks[b]["term"]
+            if t["k"] == "call" and t.get("target") is None:
+                return b
+            if t["k"] in ("goto", "drop", "call", "assert") and t.get("target") is not None:
+                nf.append(t["target"])
+        frontier = nf
+    return None
+
+
+def _moved_chain(body, local, depth=4):
+    out = set()
+    cur = local
+    for _ in range(depth):
+        d = None
+        for b, i, st in body.statements():
+            if st["k"] == "assign" and not st["place"]["proj"] and st["place"]["local"] == cur:
+                d = st
+        if d is None or d["rv"]["k"] != "use" or d["rv"]["op"].get("k") not in ("copy", "move") or d["rv"]["op"]["place"]["proj"]:
+            break
+        cur = d["rv"]["op"]["place"]["local"]
+        out.add("local:%d" % cur)
+    return out
 
 
 def _switch_scrutinee_field(body, bb):
@@ -667,6 +734,12 @@ def _classify(res, allowed_spec, rep, prefix, fn_filter=None, kinds=None):
                 continue
             # assumptions
             if kind == "PANIC" and (fn, "PANIC") in allowed_spec:
+                rep.obligations += 1
+                rep.discharged += 1
+                if A_SPEC not in rep.assumed:
+                    rep.assumed.append(A_SPEC)
+                continue
+            if kind == "PANIC" and (fn, "PANIC@%d" % o["bb"]) in allowed_spec:
                 rep.obligations += 1
                 rep.discharged += 1
                 if A_SPEC not in rep.assumed:
